@@ -53,6 +53,9 @@ def explore_instance(spec, inst, p: Partial, max_states=400_000, on_level=None):
     p.maxi(max_depth=tree.max_depth)
     if tree.capped:
         p.add(caps_hit=1)
+    for h, e in tree.crashes[:2]:
+        p.add(env_step_crashes=1)
+        p.note(f"{spec.key}: mask-admitted step {list(h)} raises {type(e).__name__}: {str(e)[:80]} (reported as a violation by C02)")
     return env, td0, tree
 
 
